@@ -22,6 +22,8 @@ func init() {
 }
 
 func runC18(c *eng.Ctx, thorough bool) {
+	// ---- C18.4 the single use is consumed by the locked read-modify-write of C19.1
+	useTokenAtomic(c, "C18.4")
 	// ---- C18.1 the wrapping token literal
 	if f := c.Fn("vault.(*Core).wrapInCubbyhole"); f != nil {
 		c.Clause("R12", "C18.1")
